@@ -17,12 +17,12 @@ func init() { fw.Register(c17{}) }
 
 func (c17) ID() string { return "C17" }
 func (c17) Rule() string {
-	return "every operand pair of each of the 7 fields the library constructs (Multiply vs carry-less reference, commutativity, inverse, Divide defined and undoing Multiply, AddOrSub = xor) — exhaustive; associativity over all triples of the fields up to 256 elements (thorough) or sampled; random and structured polynomials vs reference; RS encoder histories (ascending/descending/random/repeated check counts 1..600) checked by evaluating data||check at the required roots, with the cache-invariant hook on; non-trivial = a case whose full oracle ran; distinct by (field, operands) / case hash"
+	return "every operand pair of each of the 7 fields the library constructs (Multiply vs carry-less reference, commutativity, inverse, Divide defined and undoing Multiply, AddOrSub = xor) — exhaustive; associativity over all triples of the fields up to 256 elements (thorough) or sampled; random and structured polynomials vs reference; RS encoder histories (ascending/descending/random/repeated check counts 0..600) checked by evaluating data||check at the required roots, with the cache-invariant hook on; non-trivial = a case whose full oracle ran; distinct by (field, operands) / case hash"
 }
 func (c17) Assumptions() []string {
 	return []string{
 		"reference arithmetic is shift-and-xor multiplication modulo the field polynomial with generator element 2 (refdec/gf.go)",
-		"don't-care: divisor 0, Invers(0), zero check symbols, empty coefficient slices, zero divisor polynomial",
+		"don't-care: divisor 0, Invers(0), empty coefficient slices, zero divisor polynomial",
 	}
 }
 
@@ -412,6 +412,13 @@ func c17RS(c *fw.Ctx, fs fieldSpec, rf refdec.Field, u *fw.Unit) {
 		for i := 0; i < n; i++ {
 			ks = append(ks, max(1, fs.size-3+r.Intn(6)))
 		}
+	}
+	// zero check symbols is a number of check symbols too: somewhere in the history
+	ks = append(ks, 0)
+	if len(ks) > 3 {
+		p := r.Intn(len(ks) - 1)
+		ks[p], ks[len(ks)-1] = ks[len(ks)-1], ks[p]
+		ks = append(ks, ks[p+1])
 	}
 	for _, k := range ks {
 		c.Eval()
